@@ -55,6 +55,22 @@ impl Bits {
     pub fn idpf(&self) -> IdpfInput {
         IdpfInput::from_bools(&self.bools())
     }
+    /// The same input, built through the public `From<BitVec>` conversion from a bit vector whose
+    /// storage starts `head` bits into its first word (what `bits[head..].to_bitvec()` yields).
+    pub fn idpf_head(&self, head: usize) -> IdpfInput {
+        use bitvec::prelude::*;
+        if head == 0 {
+            return self.idpf();
+        }
+        let mut bv: BitVec<usize, Lsb0> = BitVec::new();
+        for _ in 0..head {
+            bv.push(true);
+        }
+        for b in self.bools() {
+            bv.push(b);
+        }
+        IdpfInput::from(bv[head..].to_bitvec())
+    }
     /// pseudo-random bit string
     pub fn from_seed(seed: u64, len: usize) -> Self {
         let mut bytes = bytes_from(seed, len.div_ceil(8));
